@@ -1038,7 +1038,7 @@ func StrFromCode(a *Term) *Term {
 	}
 	return newTerm("str.from_code", String, a)
 }
-func StrInRe(s, re *Term) *Term { return newTerm("str.in_re", Bool, s, re) }
+func StrInRe(s, re *Term) *Term  { return newTerm("str.in_re", Bool, s, re) }
 func ReStr(s *Term) *Term        { return newTerm("str.to_re", Regex, s) }
 func ReStar(r *Term) *Term       { return newTerm("re.*", Regex, r) }
 func RePlus(r *Term) *Term       { return newTerm("re.+", Regex, r) }
@@ -1052,7 +1052,7 @@ func ReUnion(rs ...*Term) *Term {
 func ReRange(lo, hi byte) *Term {
 	return newTerm("re.range", Regex, StrC(string([]byte{lo})), StrC(string([]byte{hi})))
 }
-func ReAllChar() *Term { return ReRange(0, 255) }
+func ReAllChar() *Term     { return ReRange(0, 255) }
 func ReComp(r *Term) *Term { return newTerm("re.comp", Regex, r) }
 
 // UF application (uninterpreted function); name must be declared by the solver layer.
